@@ -5,11 +5,12 @@ package provider
 // C17 — sweeping provider advertises every key to its closest peers, on schedule.
 
 import (
-	"os"
 	"context"
 	"crypto/sha256"
 	"errors"
 	"fmt"
+	"github.com/libp2p/go-libp2p-kad-dht/provider/internal/keyspace"
+	"os"
 	"sort"
 	"strings"
 	"sync"
@@ -33,12 +34,12 @@ func swpp() *verifsim.Pool { return verifsim.NewPool("peer", swPool) }
 func swkp() *verifsim.Pool { return verifsim.NewPool("key", swPool) }
 
 type swEv struct {
-	AtMin int    `json:"at_min"`
-	Ev    string `json:"ev"` // start once stop grow shrink unreach outage restart addr
-	Force bool   `json:"force,omitempty"`
-	Keys  []int  `json:"keys,omitempty"`  // indices into Keys
-	Peers []int  `json:"peers,omitempty"` // pool indices (grow) or indices into the current swarm (shrink, unreach)
-	DurMin int   `json:"dur_min,omitempty"`
+	AtMin  int    `json:"at_min"`
+	Ev     string `json:"ev"` // start once stop grow shrink unreach outage restart addr
+	Force  bool   `json:"force,omitempty"`
+	Keys   []int  `json:"keys,omitempty"`  // indices into Keys
+	Peers  []int  `json:"peers,omitempty"` // pool indices (grow) or indices into the current swarm (shrink, unreach)
+	DurMin int    `json:"dur_min,omitempty"`
 }
 
 type swSc struct {
@@ -189,6 +190,7 @@ type swObs struct {
 	OnceAt    map[int][]int
 	Outages   [][2]int
 	Restarts  []int
+	SchedAt   map[int][]string // minute -> scheduled prefixes at the end of that minute (recorded when they change)
 	AddrAt    map[int]string
 	Errs      []string
 	Outcome   verifsim.BubbleOutcome
@@ -227,7 +229,11 @@ func runSweep(t *testing.T, sc *swSc) swObs {
 				WithReprovideInterval(time.Duration(sc.IntervalM)*time.Minute), WithMaxReprovideDelay(time.Duration(sc.DelayM)*time.Minute),
 				WithReplicationFactor(sc.R), WithMaxWorkers(sc.Workers[0]), WithDedicatedPeriodicWorkers(sc.Workers[1]), WithDedicatedBurstWorkers(sc.Workers[2]),
 				WithPeerID(self), WithRouter(router), WithMessageSender(sender), WithDatastore(dstore),
-				WithSelfAddrs(func() []ma.Multiaddr { st.mu.Lock(); defer st.mu.Unlock(); return append([]ma.Multiaddr(nil), st.addrs...) }),
+				WithSelfAddrs(func() []ma.Multiaddr {
+					st.mu.Lock()
+					defer st.mu.Unlock()
+					return append([]ma.Multiaddr(nil), st.addrs...)
+				}),
 				WithOfflineDelay(30*time.Minute), WithConnectivityCheckOnlineInterval(time.Minute))
 		}
 		prov, err := open()
@@ -244,6 +250,8 @@ func runSweep(t *testing.T, sc *swSc) swObs {
 		obs.SwarmAt[0] = st.list()
 		obs.AddrAt[0] = st.addrs[0].String()
 		outageEnd := -1
+		lastSched := "-"
+		obs.SchedAt = map[int][]string{}
 		keysOf := func(e swEv) []mh.Multihash {
 			var out []mh.Multihash
 			for _, k := range e.Keys {
@@ -350,6 +358,19 @@ func runSweep(t *testing.T, sc *swSc) swObs {
 			}
 			time.Sleep(43 * time.Second)
 			verifsim.Quiesce()
+			// the schedule's prefixes at the end of the minute (in-package read, under the schedule lock): lets the oracle tell a
+			// re-planned schedule (prefix length re-estimated after a restart or an offline period) from a missed slot
+			prov.scheduleLk.Lock()
+			var ps []string
+			for _, k := range keyspace.AllKeys(prov.schedule, prov.order) {
+				ps = append(ps, string(k))
+			}
+			prov.scheduleLk.Unlock()
+			sort.Strings(ps)
+			if cur := fmt.Sprintf("%q", ps); cur != lastSched {
+				lastSched = cur
+				obs.SchedAt[m] = ps
+			}
 		}
 		sender.mu.Lock()
 		obs.Log = append([]advert(nil), sender.log...)
@@ -455,16 +476,103 @@ func judgeSweep(sc *swSc, obs *swObs, res *verifsim.Result) (cycles int) {
 	// deadlineAfter: a key last advertised at `last` is due by last+bound; when a router outage begins before that deadline the
 	// missed work must be caught up once the node is back online: the deadline moves to the outage's end plus a catch-up allowance
 	const catchUp = 10 * time.Minute
+	// a Close+restart on the same datastore is treated the same way: the cycle start and the reprovide history are persisted,
+	// regions that became late are queued at bootstrap, so a restart moves a deadline it precedes to restart + catch-up at most
+	type pause struct{ from, to time.Duration }
+	var pauses []pause
+	for _, o := range obs.Outages {
+		pauses = append(pauses, pause{time.Duration(o[0]) * time.Minute, time.Duration(o[1]) * time.Minute})
+	}
+	for _, r := range obs.Restarts {
+		pauses = append(pauses, pause{time.Duration(r) * time.Minute, time.Duration(r)*time.Minute + 18*time.Second})
+	}
+	sort.Slice(pauses, func(a, b int) bool { return pauses[a].from < pauses[b].from })
 	extendByOutages := func(dl time.Duration) time.Duration {
-		for _, o := range obs.Outages { // in order of occurrence
-			os, oe := time.Duration(o[0])*time.Minute, time.Duration(o[1])*time.Minute
-			if os <= dl && oe+catchUp > dl {
-				dl = oe + catchUp
+		for _, o := range pauses { // in order of occurrence
+			if o.from <= dl && o.to+catchUp > dl {
+				dl = o.to + catchUp
 			}
 		}
 		return dl
 	}
 	deadlineAfter := func(last time.Duration) time.Duration { return extendByOutages(last + bound + time.Minute) }
+	// replanned: between two instants the key's scheduled prefix changed across a restart or an offline period, i.e. the
+	// provider re-estimated the prefix length and rebuilt its schedule (listed finding: the new slot is not reconciled with
+	// when the key was last advertised)
+	coverAt := func(m int, bits string) string {
+		best := -1
+		for at := range obs.SchedAt {
+			if at <= m && at > best {
+				best = at
+			}
+		}
+		if best < 0 {
+			return "?"
+		}
+		for _, p := range obs.SchedAt[best] {
+			if strings.HasPrefix(bits, p) {
+				return "'" + p + "'"
+			}
+		}
+		return "?"
+	}
+	// skippedAtBootstrap: the listed finding about (re)building the schedule. When an instance comes online after a restart, or
+	// comes back from OFFLINE, it plans its schedule afresh and catches up only on regions that were not reprovided within the
+	// last interval; a key advertised less than an interval before that instant is left to its next slot under the new plan,
+	// however far away that is (its slot may have passed while the node was down, or moved because the prefix length estimate
+	// changed). Identified by: such an instant B inside the gap with B - last <= interval. A gap whose key was already overdue
+	// at B is NOT excused by this (the catch-up is supposed to cover it).
+	skippedAtBootstrap := func(from, to time.Duration) string {
+		var bs []time.Duration
+		for _, r := range obs.Restarts {
+			b := time.Duration(r) * time.Minute
+			for _, o := range obs.Outages { // restarted during an outage: online when it ends
+				if os, oe := time.Duration(o[0])*time.Minute, time.Duration(o[1])*time.Minute; os <= b && b < oe {
+					b = oe
+				}
+			}
+			bs = append(bs, b)
+		}
+		for _, o := range obs.Outages {
+			if o[1]-o[0] >= 30 {
+				bs = append(bs, time.Duration(o[1])*time.Minute)
+			}
+		}
+		for _, b := range bs {
+			if b >= from && b <= to && b-from <= interval+time.Minute {
+				return fmt.Sprintf("the node (re)built its schedule at %v, %v after the key's last advertisement (< interval: not part of the bootstrap catch-up)", b, b-from)
+			}
+		}
+		return ""
+	}
+	replanned := func(k int, from, to time.Duration) string {
+		bits := verifsim.BitString(sha256.Sum256([]byte(kp.IDs[sc.Keys[k]])), 64)
+		check := func(before, after int, what string) string {
+			b, a := coverAt(before, bits), coverAt(after, bits)
+			if os.Getenv("VERIF_DEBUG") != "" {
+				fmt.Fprintf(os.Stderr, "DEBUG replanned key %d %s: %d->%s %d->%s outages %v\n", k, what, before, b, after, a, obs.Outages)
+			}
+			if b != "?" && a != "?" && b != a {
+				return fmt.Sprintf("%s re-planned the schedule: the key's prefix went from %s to %s", what, b, a)
+			}
+			return ""
+		}
+		for _, r := range obs.Restarts {
+			if at := time.Duration(r) * time.Minute; at >= from-time.Minute && at <= to {
+				if w := check(r-1, r+1, fmt.Sprintf("the restart at minute %d", r)); w != "" {
+					return w
+				}
+			}
+		}
+		for _, o := range obs.Outages {
+			if at := time.Duration(o[1]) * time.Minute; o[1]-o[0] >= 30 && at >= from-time.Minute && at <= to {
+				if w := check(o[0]-1, o[1]+2, fmt.Sprintf("coming back online at minute %d", o[1])); w != "" {
+					return w
+				}
+			}
+		}
+		return ""
+	}
 	nearRestart := func(from, to time.Duration) bool {
 		for _, r := range obs.Restarts {
 			rt := time.Duration(r) * time.Minute
@@ -527,6 +635,16 @@ func judgeSweep(sc *swSc, obs *swObs, res *verifsim.Result) (cycles int) {
 				ts = append(ts, fmt.Sprintf("%v(%d)", a.at, len(a.to)))
 			}
 			fmt.Fprintf(os.Stderr, "DEBUG key %d %08b%08b: %v\n", k2, h[0], h[1], ts)
+		}
+	}
+	if os.Getenv("VERIF_DEBUG") != "" {
+		var ms []int
+		for m := range obs.SchedAt {
+			ms = append(ms, m)
+		}
+		sort.Ints(ms)
+		for _, m := range ms {
+			fmt.Fprintf(os.Stderr, "DEBUG sched at minute %d: %q\n", m, obs.SchedAt[m])
 		}
 	}
 	for k := range sc.Keys {
@@ -617,7 +735,7 @@ func judgeSweep(sc *swSc, obs *swObs, res *verifsim.Result) (cycles int) {
 			for i, tm := range times {
 				gap := tm - last
 				isEnd := i == len(times)-1
-				if gap > bound+time.Minute && tm > deadlineAfter(last) && !nearRestart(last, tm) && !noReachableTarget(k, last, tm) {
+				if gap > bound+time.Minute && tm > deadlineAfter(last) && !noReachableTarget(k, last, tm) {
 					what := fmt.Sprintf("between advertisements at %v and %v", last, tm)
 					if isEnd {
 						what = fmt.Sprintf("after the last advertisement at %v until %v", last, tm)
@@ -636,7 +754,15 @@ func judgeSweep(sc *swSc, obs *swObs, res *verifsim.Result) (cycles int) {
 							all = append(all, fmt.Sprintf("\n key %d %08b%08b: %v", k2, h[0], h[1], ts))
 						}
 					}
-					res.Fail("reprovide-on-schedule", "C17/sweep/reprovide-gap", "key %d: %v without re-advertisement %s; bound interval+delay = %v (r=%d, bucket=%d, swarm=%d); advertisements of the key: %v", k, gap, what, bound, sc.R, sc.Bucket, len(sc.Swarm), all)
+					sig := "C17/sweep/reprovide-gap"
+					if why := skippedAtBootstrap(last, tm); why != "" {
+						sig = "C17/sweep/replan-after-restart"
+						what += "; " + why
+						if w2 := replanned(k, last, tm); w2 != "" {
+							what += "; " + w2
+						}
+					}
+					res.Fail("reprovide-on-schedule", sig, "key %d: %v without re-advertisement %s; bound interval+delay = %v (r=%d, bucket=%d, swarm=%d); advertisements of the key: %v", k, gap, what, bound, sc.R, sc.Bucket, len(sc.Swarm), all)
 					return
 				}
 				last = tm
@@ -732,7 +858,9 @@ func deepCluster(swarm []int, need int) bool {
 		return false
 	}
 	ms := append([]int(nil), swarm...)
-	sort.Slice(ms, func(a, b int) bool { return verifsim.BitString(pp.Kad[ms[a]], 64) < verifsim.BitString(pp.Kad[ms[b]], 64) })
+	sort.Slice(ms, func(a, b int) bool {
+		return verifsim.BitString(pp.Kad[ms[a]], 64) < verifsim.BitString(pp.Kad[ms[b]], 64)
+	})
 	thr := 3
 	for x := len(swarm) / need; x > 1; x /= 2 {
 		thr++
